@@ -69,6 +69,66 @@ def sites(fx, bodies):
                     yield b, bi, s
 
 
+def tuple_index(t):
+    """the last tuple-field index a term projects (x.N), through refs/derefs/variants"""
+    t = sym.strip(t)
+    while t[0] in ("ref", "deref", "variant", "cast"):
+        t = sym.strip(t[4] if t[0] == "cast" else t[1])
+    if t[0] == "field" and (isinstance(t[2], int) or (isinstance(t[2], str) and t[2].isdigit())):
+        return int(t[2])
+    return None
+
+
+def forall_guard(fx, b, prov, bi, s, frm, to):
+    """`x as T` where x is an element of a collection and the cast is dominated by the true branch of
+    `coll.iter().all(|e| T::try_from(e.N).is_ok())` over the same collection (shared reference: it cannot change in between)"""
+    import guards
+    op_t = prov.op(s["rv"]["op"])
+    idx = tuple_index(op_t)
+    def siteless(t):
+        """a call term without its program point: two iter() calls over the same shared-reference parameter see the same elements"""
+        if not isinstance(t, tuple):
+            return t
+        if t and t[0] == "call":
+            return ("call", t[1], tuple(siteless(a) for a in t[2]), 0) + tuple(t[4:])
+        return tuple(siteless(x) for x in t)
+
+    def shared_param_only(t):
+        roots = [x for x in sym.walk(t) if x[0] in ("arg", "local")]
+        return bool(roots) and all(x[0] == "arg" and (b.local_ty(x[1]) or "").startswith("&") and not (b.local_ty(x[1]) or "").startswith("&mut") for x in roots)
+    srcs = [siteless(sym.norm(x)) for x in sym.walk(op_t) if x[0] == "call" and (x[4] or x[1] or "").endswith("::iter") and shared_param_only(x)]
+    if not srcs:
+        return None
+    for tb, fb, call, sw in guards.bool_call_conditions(b, prov):
+        if tb is None or not b.dominates(tb, bi) or not (call[4] or call[1] or "").endswith("Iterator::all") or len(call[2]) < 2:
+            continue
+        it = sym.strip(call[2][0])
+        while it[0] in ("ref", "deref"):
+            it = sym.strip(it[1])
+        if siteless(sym.norm(it)) not in srcs:
+            continue
+        cl = None
+        for x in sym.walk(call[2][1]):
+            if x[0] == "agg" and x[1] == "closure" and x[2]:
+                cl = fx.body(x[2])
+        if cl is None:
+            continue
+        cprov = sym.Prov(cl)
+        ret = sym.strip(cprov.local(0))
+        if not (ret[0] == "call" and (ret[1] or "").endswith("::is_ok") and ret[2]):
+            continue
+        inner = sym.strip(ret[2][0])
+        while inner[0] in ("ref", "deref"):
+            inner = sym.strip(inner[1])
+        if not (inner[0] == "call" and re.search(r"TryFrom<%s> for %s>::try_from$" % (re.escape(frm), re.escape(to)), inner[1] or "")):
+            continue
+        if len(cl.blocks) > 4 or any(blk["t"]["k"] == "switch" for blk in cl.blocks):
+            continue
+        if tuple_index(inner[2][0]) == idx:
+            return "every element passed %s::try_from(..).is_ok() in an all() over the same collection that dominates the cast" % to
+    return None
+
+
 def rule_narrowing(run, fx, rule, floors=True, roots=None, select=None, floor_n=40):
     run.rule(rule, "every lossy integer cast reachable from the writers (fewer bits or a sign change) has an operand that provably fits the target "
                    "(constant, masked, shifted, widened from a narrower type, bounded arithmetic), is dominated by a comparison with a fitting "
@@ -103,6 +163,10 @@ def rule_narrowing(run, fx, rule, floors=True, roots=None, select=None, floor_n=
             if k[0] == "c" and isinstance(k[1], int) and (k[1] - 1).bit_length() <= cap:
                 run.ok(rule, "%s: %s as %s — operand is a remainder modulo %d" % (b.path, frm, to, k[1]))
                 continue
+        why = forall_guard(fx, b, O.prov(b), bi, s, frm, to)
+        if why:
+            run.ok(rule, "%s: %s as %s — %s" % (b.path, frm, to, why))
+            continue
         import overflow
         iv = overflow.Intervals(fx, b, O.prov(b)).op(s["rv"]["op"])
         rng = overflow.INT.get(to)
